@@ -399,6 +399,24 @@ def slice_properties(ctx: Ctx):
         detail = f"{len(rr)} / {len(rc)} read labels; through a display order: {uses_r} / {uses_c}"
         if only_r or only_c:
             detail = f"only {name}: {only_r}; only {tw}: {only_c}"
+        # coercions applied by one twin only (a cast, a NaN replacement, a clip ...), whatever the shape of the code
+        COERCIONS = ("astype", "nan_to_num", "clip", "round", "around", "abs", "floor", "ceil", "trunc", "rint")
+
+        def coercions(name_):
+            out = []
+            from ..stmts import reachable_functions as _reach
+
+            for fn in _reach(ctx.repo, sl, name_, depth=2):
+                for c in ast.walk(fn):
+                    if isinstance(c, ast.Call):
+                        head = c.func.attr if isinstance(c.func, ast.Attribute) else (c.func.id if isinstance(c.func, ast.Name) else "")
+                        if head in COERCIONS:
+                            out.append(head)
+            return sorted(out)
+
+        cr_, cc_ = coercions(name), coercions(tw)
+        ctx.ob("slice-mirror.coercions", where, f"{name}: {cr_}; {tw}: {cc_}", "the same casts / NaN replacements / roundings on both sides", cr_ == cc_,
+               "one twin truncates / replaces / rounds where the other does not: the two orientations of the same analysis give different values")
         ctx.ob("slice-mirror.dependence", where, detail, "both twins read the same leaf facts, and both or neither go through the display order", same,
                "one twin depends on facts (display order / hidden set, another measure) the other does not depend on")
     ctx.require_min("slice property pairs", 25)
